@@ -146,7 +146,7 @@ def star(rng, k=3, algo="ID", nw=False, roles=None, order=None, conn_order=None,
 # ---------------------------------------------------------------------------------------------- mesh
 def mesh(rng, m=2, n=2, algo="XY", nw=False, sides=(), cluster_role="ms", side_role="s", dir_end="dst",
          partial=None, degree=5, cluster_shape="2d", undirected_sides=False, ep_order=None, name="mesh",
-         force_dir=False):
+         force_dir=False, nranges=1, side_nranges=1):
     """m x n auto-connected router array; a cluster endpoint (array) on the local ports (all or `partial`
     = list of (i,j)); one endpoint array per boundary side in `sides` (subset of W,E,S,N)."""
     d = header(name, nw, algo)
@@ -170,7 +170,7 @@ def mesh(rng, m=2, n=2, algo="XY", nw=False, sides=(), cluster_role="ms", side_r
         return c
 
     if partial is None:
-        eps.append(mk_ep("cluster", cluster_role, nw, rng, alloc, array=[m, n]))
+        eps.append(mk_ep("cluster", cluster_role, nw, rng, alloc, array=[m, n], nranges=nranges))
         conns.append(connect("cluster", {"range": [[0, m - 1], [0, n - 1]]}, {"range": [[0, m - 1], [0, n - 1]]},
                              "Eject" if (algo == "XY" or force_dir or rng.random() < 0.7) else None))
     else:
@@ -182,7 +182,8 @@ def mesh(rng, m=2, n=2, algo="XY", nw=False, sides=(), cluster_role="ms", side_r
     for sd in sides:
         cnt = n if sd in "WE" else m
         nm = {"W": "west", "E": "east", "S": "south", "N": "north"}[sd]
-        eps.append(mk_ep(nm, side_role, nw, rng, alloc, array=[cnt]))
+        eps.append(mk_ep(nm, side_role if isinstance(side_role, str) else side_role[sd], nw, rng, alloc,
+                         array=[cnt], nranges=side_nranges))
         rsel = {"W": [[0, 0], [0, n - 1]], "E": [[m - 1, m - 1], [0, n - 1]],
                 "S": [[0, m - 1], [0, 0]], "N": [[0, m - 1], [n - 1, n - 1]]}[sd]
         direction = {"W": "West", "E": "East", "S": "South", "N": "North"}[sd]
@@ -520,3 +521,31 @@ def detour_suite(tier, seed):
                                                  "src_dir": "South", "dst_dir": "North"})
                     out.append((d, {"topo": "torus-y", "m": m, "n": n}))
     return out
+
+
+# ---------------------------------------------------------------------------------------------- XY meshes (C04, C07)
+def xy_suite(tier, seed, algo="XY"):
+    """systematic XY meshes: every subset of the four boundary sides, per-side role mixes (manager-only
+    sides included), multi-range endpoints, direction on either end, partial coverage"""
+    rng = random.Random(seed + 37)
+    out = []
+    all_sides = [tuple(s for s, b in zip("WESN", bits) if b) for bits in itertools.product((0, 1), repeat=4)]
+    sizes = [(1, 1), (2, 1), (1, 2), (2, 2), (3, 2), (2, 3)] if tier == "quick" else \
+        [(m, n) for m in range(1, 5) for n in range(1, 5)]
+    for (m, n) in sizes:
+        for sides in all_sides:
+            reps = 1 if tier == "quick" else 3
+            for _ in range(reps):
+                roles = {sd: rng.choice(["s", "ms", "m", "m"]) for sd in "WESN"}
+                out.append(mesh(rng, m, n, algo, rng.random() < 0.25, sides=sides, side_role=roles,
+                                cluster_role=rng.choice(["ms", "ms", "m", "s"]), dir_end=rng.choice(["dst", "src"]),
+                                nranges=rng.choice([1, 2]), side_nranges=rng.choice([1, 1, 2, 3])))
+    for _ in range(40 if tier == "quick" else 300):
+        m, n = rng.randint(2, 4), rng.randint(2, 4)
+        cells = [(i, j) for i in range(m) for j in range(n)]
+        part = rng.sample(cells, rng.randint(1, min(4, len(cells))))
+        sides = rng.choice(all_sides)
+        roles = {sd: rng.choice(["s", "ms", "m"]) for sd in "WESN"}
+        out.append(mesh(rng, m, n, algo, rng.random() < 0.25, sides=sides, partial=part, side_role=roles,
+                        cluster_role=rng.choice(["ms", "m", "s"]), side_nranges=rng.choice([1, 2])))
+    return [(d, t) for d, t in out if d is not None]
